@@ -273,3 +273,79 @@ def r7_error_term_width(ck, P):
                 ck.ok(R, '%s: %s of the error term at 64 bits (%s)' % (f.name, x.op, x.loc()))
     if n == 0:
         ck.incomplete(R, 'no division of the edge error term found in pixman-trap.c')
+
+
+def r8_fill_count_restart(ck, P):
+    """the pending-span accumulator of the a8 rasteriser: after the whole pending span has been written out, its row count restarts"""
+    from .factors import _loops_of
+    R = ck.rule('C12-R8', 'in the a8 edge rasteriser, on every path on which the whole pending span (fill_end - fill_start pixels, weight fill_size) is written out, the row count fill_size that reaches the next sample row is a constant (1 for the span just started, 0 for none) and never the old count incremented: coverage stays a count of sample rows', floor=2)
+    u = P.units.get('pixman-edge.c')
+    f = u.functions.get('rasterize_edges_8') if u else None
+    if f is None:
+        ck.incomplete(R, 'rasterize_edges_8 not found'); return
+    ck.saw(f)
+    loops = _loops_of(u).get(f.name, [])
+    outer = [lp for lp in loops if any(f.by_id[p['v']].dv == 'fill_size' for p in lp['phis'])]
+    if len(outer) != 1:
+        ck.incomplete(R, 'the sample-row loop carrying fill_size was not recognised'); return
+    lp = outer[0]; body = set(lp['blocks']); hdr = lp['header']
+    FS = [f.by_id[p['v']] for p in lp['phis'] if f.by_id[p['v']].dv == 'fill_size'][0]
+    flushes = []
+    for x in f.insts():
+        if x.op == 'sub' and x.bb.id in body:
+            names = [f.v(o).dv if o[0] == 'v' and f.v(o) is not None else None for o in x.a]
+            if names == ['fill_end', 'fill_start']:
+                flushes.append(x)
+    if not flushes:
+        ck.incomplete(R, 'no write-out of the whole pending span found'); return
+
+    def resolve(o, env):
+        if o[0] == 'c':
+            return ('const', int(o[1]))
+        if o[0] == 'v':
+            if o[1] in env:
+                return env[o[1]]
+            if o[1] == FS.i:
+                return ('old',)
+            x = f.by_id[o[1]]
+            if x.op in ('add', 'sub'):
+                a, b = resolve(x.a[0], env), resolve(x.a[1], env)
+                if a[0] == 'const' and b[0] == 'const':
+                    return ('const', a[1] + b[1] if x.op == 'add' else a[1] - b[1])
+                return ('derived', a, b)
+            if x.op == 'phi':
+                return ('unresolved-phi',)
+        return ('other',)
+
+    for fl in flushes:
+        finals = []; budget = [0]
+
+        def walk(b, prev, env, visited):
+            budget[0] += 1
+            if budget[0] > 5000:
+                return
+            env = dict(env)
+            for x in f.blocks[b].insts:
+                if x.op == 'phi' and prev is not None:
+                    for a, bb in zip(x.a, x.d['bb']):
+                        if bb == prev:
+                            env[x.i] = resolve(a, env)
+            for s_ in f.blocks[b].succ:
+                if s_ == hdr:
+                    inc = [a for a, bb in zip(FS.a, FS.d['bb']) if bb == b]
+                    if inc:
+                        finals.append(resolve(inc[0], env))
+                    continue
+                if s_ not in body or (b, s_) in visited:
+                    continue
+                walk(s_, b, env, visited | {(b, s_)})
+
+        walk(fl.bb.id, None, {}, frozenset())
+        bad = [v for v in finals if v[0] != 'const']
+        where = 'write-out of the whole pending span at %s' % fl.loc()
+        if not finals:
+            ck.incomplete(R, '%s: no path to the next sample row found' % where)
+        elif bad:
+            ck.violation(R, f.name, 'row count after a whole-span write-out', 'after the pending span has been written out with its full weight (%s) the row count can reach the next sample row as its old value plus something instead of being restarted: the new span inherits rows it did not cover and is later added with 2x, 3x ... the weight' % fl.loc(), fl.loc())
+        else:
+            ck.ok(R, where, 'fill_size restarts at %s' % sorted({v[1] for v in finals}))
